@@ -418,7 +418,13 @@ class Translator:
             return [], f"(decide ({self.cond(e, env)}))", "bool"
         if isinstance(e, ast.BoolOp):
             # value-level and/or only on booleans
-            kinds = [self.expr(v, env)[2] for v in e.values]
+            try:
+                kinds = [self.expr(v, env)[2] for v in e.values]
+            except Untranslatable as ex:
+                if "fallible" not in str(ex):
+                    raise
+                # operands that may raise: keep Python's left-to-right short-circuit evaluation
+                return self.boolop_short_circuit(e, env)
             if all(k == "bool" for k in kinds):
                 return [], f"(decide ({self.cond(e, env)}))", "bool"
             self.bad(e, "and/or on non-bool values")
@@ -464,6 +470,37 @@ class Translator:
         if isinstance(e, ast.Call):
             return self.call(e, env)
         self.bad(e)
+
+    def bool_operand(self, v, env):
+        """-> (prelude, Bool term) of one operand of and/or whose evaluation may raise."""
+        if isinstance(v, ast.Compare) and len(v.ops) == 1 and not isinstance(v.ops[0], (ast.In, ast.NotIn)):
+            pl, a, ka = self.expr(v.left, env)
+            pr, b, kb = self.expr(v.comparators[0], env)
+            sym = {ast.Lt: "<", ast.LtE: "≤", ast.Gt: ">", ast.GtE: "≥", ast.Eq: "=", ast.NotEq: "≠"}.get(type(v.ops[0]))
+            if sym is None or ka != kb:
+                self.bad(v, "comparison in a short-circuit operand")
+            return pl + pr, f"(decide ({a} {sym} {b}))"
+        p, t, k = self.expr(v, env)
+        if k != "bool":
+            self.bad(v, "and/or on non-bool values")
+        return p, t
+
+    def boolop_short_circuit(self, e, env):
+        """`a and b …` / `a or b …` with operands that may raise: operand i+1 is evaluated
+        only when Python evaluates it (monadic if-chain)."""
+        is_and = isinstance(e.op, ast.And)
+        ops = [self.bool_operand(v, env) for v in e.values]
+        pre, term = ops[-1]
+        for p, t in reversed(ops[:-1]):
+            inner = "(do " + "; ".join(list(pre) + [f"pure {term}"]) + ")"
+            tv = self.fresh()
+            if is_and:
+                step = f"let {tv} : Bool ← (if {t} = true then {inner} else pure false)"
+            else:
+                step = f"let {tv} : Bool ← (if {t} = true then pure true else {inner})"
+            pre, term = list(p) + [step], tv
+        self.fallible = True
+        return pre, term, "bool"
 
     def call(self, e, env):
         f = e.func
